@@ -33,7 +33,7 @@ ASSUMPTIONS = ["no lifespan trimming in this workload (C15 covers it)",
 
 def plan(tier):
     if tier == "thorough":
-        return {"shards": 16, "cases": 24000, "shard_timeout_s": 3000, "shard_budget_s": 1500}
+        return {"shards": 16, "cases": 40000, "shard_timeout_s": 3000, "shard_budget_s": 1500}
     return {"shards": 16, "cases": 4000, "shard_timeout_s": 600, "shard_budget_s": 100}
 
 
